@@ -63,3 +63,125 @@ def Log.effective (l : Log) : List Nat := l.committed ++ l.pending
 def Log.run (cmds : List Cmd) : Log := cmds.foldl (fun l c => (l.step c).1) {}
 
 end Hyp.Persist
+
+namespace Hyp.Persist
+
+/-! ## cell store: ZODB's treatment of persistent objects, abstractly -/
+
+abbrev Val := Int
+abbrev Store := Nat → Val
+
+structure Action where
+  cell : Nat
+  f : Val → Val
+  notify : Bool
+
+/-- an operation of an index = the list of actions it performs on persistent cells -/
+abbrev Block := List Action
+
+structure Low where
+  disk : Store
+  layers : List (List (Nat × Val)) := []      -- savepoint overlays, oldest first (TmpStore)
+  cur : Store
+  dirty : List Nat := []                       -- registered with the transaction since the last savepoint
+
+def upd (σ : Store) (c : Nat) (v : Val) : Store := fun x => if x = c then v else σ x
+
+/-- what a (re)load of cell `c` returns given the first `n` savepoint layers -/
+def stored (disk : Store) (layers : List (List (Nat × Val))) (c : Nat) : Val :=
+  layers.foldl (fun acc layer => match layer.lookup c with | some v => v | none => acc) (disk c)
+
+def Low.act (s : Low) (a : Action) : Low :=
+  { s with cur := upd s.cur a.cell (a.f (s.cur a.cell)),
+           dirty := if a.notify && !s.dirty.contains a.cell then a.cell :: s.dirty else s.dirty }
+
+def Low.block (s : Low) (b : Block) : Low := b.foldl Low.act s
+
+def layerCells (layers : List (List (Nat × Val))) : List Nat := layers.flatMap (fun l => l.map (·.1))
+
+/-- `transaction.savepoint()`: registered objects are written to the temporary store -/
+def Low.savepoint (s : Low) : Low :=
+  { s with layers := s.layers ++ [s.dirty.map (fun c => (c, s.cur c))], dirty := [] }
+
+/-- `savepoint.rollback()`: registered objects and everything in the temporary store are invalidated;
+they reload from the store as of that savepoint.  Unregistered cells keep their in-memory value. -/
+def Low.rollback (s : Low) (j : Nat) : Low :=
+  let keep := s.layers.take (j + 1)
+  let invalid := s.dirty ++ layerCells s.layers
+  { s with layers := keep,
+           cur := fun c => if invalid.contains c then stored s.disk keep c else s.cur c,
+           dirty := [] }
+
+/-- `commit`: registered objects are written from memory, savepointed objects from the temporary store -/
+def Low.commit (s : Low) : Low :=
+  { disk := fun c => if s.dirty.contains c then s.cur c else stored s.disk s.layers c,
+    layers := [], cur := s.cur, dirty := [] }
+
+/-- `abort`: registered / savepointed objects are invalidated and reload from the committed storage -/
+def Low.abort (s : Low) : Low :=
+  let invalid := s.dirty ++ layerCells s.layers
+  { disk := s.disk, layers := [],
+    cur := fun c => if invalid.contains c then s.disk c else s.cur c, dirty := [] }
+
+/-- `cacheMinimize`: unregistered objects become ghosts and reload on next access -/
+def Low.evict (s : Low) : Low :=
+  { s with cur := fun c => if s.dirty.contains c then s.cur c else stored s.disk s.layers c }
+
+/-- abort, close, reopen with an empty cache -/
+def Low.reopen (s : Low) : Low := { disk := s.disk, layers := [], cur := s.disk, dirty := [] }
+
+/-- abstract effect of a block on a store: the functions are applied, notification is irrelevant -/
+def absBlock (σ : Store) (b : Block) : Store := b.foldl (fun σ a => upd σ a.cell (a.f (σ a.cell))) σ
+def absRun (σ : Store) (bs : List Block) : Store := bs.foldl absBlock σ
+
+/-- every cell a block touches is also notified by it ("not redundant: Persistency!") -/
+def Disciplined (b : Block) : Prop := ∀ a ∈ b, ∃ a' ∈ b, a'.cell = a.cell ∧ a'.notify = true
+
+/-- commands over blocks -/
+inductive LCmd where
+  | op (b : Block) | failop (b : Block)
+  | commit | abort | savepoint | rollback (j : Nat) | evict | reopen
+
+def Low.step (s : Low) : LCmd → Low
+  | .op b => s.block b
+  | .failop b => s.block b
+  | .commit => s.commit
+  | .abort => s.abort
+  | .savepoint => s.savepoint
+  | .rollback j => s.rollback j
+  | .evict => s.evict
+  | .reopen => s.reopen
+
+/-- the same history at specification level (a log of blocks) -/
+structure BLog where
+  committed : List Block := []
+  pending : List Block := []
+  saves : List (List Block) := []
+  poisoned : Bool := false
+
+def BLog.step (l : BLog) : LCmd → BLog
+  | .op b => { l with pending := l.pending ++ [b] }
+  | .failop _ => { l with poisoned := true }
+  | .commit => { committed := l.committed ++ l.pending }
+  | .abort => { committed := l.committed }
+  | .savepoint => { l with saves := l.saves ++ [l.pending] }
+  | .rollback j =>
+    match l.saves[j]? with
+    | some p => { l with pending := p, saves := l.saves.take (j + 1), poisoned := false }
+    | none => l
+  | .evict => l
+  | .reopen => { committed := l.committed }
+
+/-- the command sequences the property quantifies over: blocks are disciplined; after an operation
+that raised, the transaction is aborted, rolled back to a live savepoint, or the database reopened -/
+def BLog.valid (l : BLog) : LCmd → Prop
+  | .op b => Disciplined b ∧ l.poisoned = false
+  | .failop b => Disciplined b
+  | .commit => l.poisoned = false
+  | .abort => True
+  | .savepoint => l.poisoned = false
+  | .rollback j => j < l.saves.length
+  | .evict => l.poisoned = false
+  | .reopen => True
+
+end Hyp.Persist
